@@ -4,6 +4,7 @@
  * from the main context and from inside callbacks, against every poll(2)
  * answer and clock advance within a deviation bound.  DESIGN.md §3 C04/C05.
  */
+#include <sys/syscall.h>
 #include <sys/time.h>
 
 #include <errno.h>
@@ -13,6 +14,7 @@
 #include <stdlib.h>
 #include <string.h>
 #include <time.h>
+#include <unistd.h>
 
 #include "mc.h"
 #include "vf.h"
@@ -41,7 +43,7 @@ static long long now_us;
 int
 clock_gettime(clockid_t c, struct timespec * tp)
 {
-	(void)c;
+	if (c != CLOCK_MONOTONIC) return ((int)syscall(SYS_clock_gettime, c, tp));
 	tp->tv_sec = now_us / 1000000; tp->tv_nsec = (now_us % 1000000) * 1000;
 	return (0);
 }
